@@ -72,7 +72,10 @@ def judge(case, mo, io, cfg):
         if led != "ok":
             return ("violation", f"allocator ledger reports {led} for `{case['lines'][0][:200]}`")
     iparts = body.split(" | ")
-    mparts = mo[0].split(" | ")
+    mbody = mo[0]
+    if " ledger=" in mbody:
+        mbody = mbody.rpartition(" ledger=")[0]
+    mparts = mbody.split(" | ")
     if len(iparts) != len(mparts):
         return ("drift", f"different number of results: model={mo[0][:100]} impl={io[0][:100]}")
     for ip, mp in zip(iparts, mparts):
